@@ -390,6 +390,9 @@ func (brr *BalanceRR) simpleBalance() (*backend.BfeBackend, error) {
 	defer brr.Unlock()
 
 	backends := brr.backends
+	if len(backends) == 0 {
+		return nil, fmt.Errorf("rr_bal:all backend is down")
+	}
 	allBackendDown := true
 
 	next := brr.next
@@ -408,7 +411,7 @@ func (brr *BalanceRR) simpleBalance() (*backend.BfeBackend, error) {
 				backend.Name, avail, backendRR.weight)
 		}
 
-		if avail && backendRR.weight != 0 {
+		if avail && backendRR.weight > 0 {
 			allBackendDown = false
 		}
 
